@@ -42,6 +42,24 @@ def run_instances_budget(c, insts, wd, kind, budget):
 
 
 HOST = '''
+class Wide:
+    __slots__ = tuple('s%d' % i for i in range(48)) + ('tag',)
+
+    def __init__(self, tag):
+        self.tag = tag
+
+    def __str__(self):
+        return 'Wide#%d' % self.tag
+
+
+class Plain:
+    def __init__(self, tag):
+        self.tag = tag
+
+    def __str__(self):
+        return 'Plain#%d' % self.tag
+
+
 def fresh(a, b):
     shared = [a, b]
     alias = shared
@@ -104,6 +122,86 @@ def temporaries_leg(c, wd):
             if bad:
                 p_ = c.save_replay({'direction': 'C2S', 'kind': 'temporaries', 'watches': ws, 'what': bad})
                 c.violation('watches %s: %s' % (ws, bad), p_, signature={'watches': 'fresh-temporaries'})
+        finally:
+            rg.close()
+    # many watches that each create a fresh value of one shape: every result must be its own object's entry
+    for cls, n in (('Wide', 40), ('Plain', 40)):
+        rg = R.Rig()
+        try:
+            ws = ['%s(%d)' % (cls, i) for i in range(n)] + ['[a, %d]' % i for i in range(10)]
+            rg.install([{'id': 't', 'path': base, 'line': marks['fresh'], 'args': {}, 'watches': ws}])
+            res = rg.run(mod.fresh, 7, 9, only_file=path)
+            bad = None
+            snaps = rg.snapshots()
+            if res != ('ok', 7) or rg.escaped or len(snaps) != 1:
+                bad = 'no snapshot / host changed %r %r' % (res, rg.escaped)
+            else:
+                s = snaps[0]
+                ids = []
+                for i, w in enumerate(s.watches):
+                    if w.error is not None or w.result is None or w.result.vid not in s.var_lookup:
+                        bad = 'watch %s does not resolve' % w.expression
+                        break
+                    v = s.var_lookup[w.result.vid]
+                    ids.append(w.result.vid)
+                    if i < n and v.value != '%s#%d' % (cls, i):
+                        bad = 'watch %s shows %r: it refers to the entry of another (released) object' % (w.expression,
+                                                                                                         v.value)
+                        break
+                    if i >= n:
+                        kids = [s.var_lookup[ch.vid].value for ch in v.children if ch.vid in s.var_lookup]
+                        if kids != ['7', str(i - n)]:
+                            bad = 'watch %s children %s' % (w.expression, kids)
+                            break
+                if not bad and len(set(ids)) != len(ids):
+                    bad = 'different watch values share a variable id'
+            c.traces_validated += 1
+            c.note_case(key=('temporaries-many', cls), nontrivial=True)
+            if bad:
+                p_ = c.save_replay({'direction': 'C2S', 'kind': 'temporaries-many', 'class': cls, 'what': bad})
+                c.violation('%d watches creating fresh %s objects: %s' % (n, cls, bad), p_,
+                            signature={'watches': 'fresh-temporaries'})
+        finally:
+            rg.close()
+    # several actions on one event: every snapshot's references resolve in its own table
+    for tps in ([{'id': 'a', 'args': {}, 'watches': ['shared', 'a + 1']}, {'id': 'b', 'args': {}, 'watches': ['shared', 'b']}],
+                [{'id': 'l', 'args': {'log_msg': 'v={shared} {a}', 'snapshot': 'no_collect'}, 'watches': []},
+                 {'id': 's', 'args': {}, 'watches': ['alias']}],
+                [{'id': 's', 'args': {'log_msg': 'w={shared}'}, 'watches': ['alias']},
+                 {'id': 't', 'args': {'frame_type': 'all_frame'}, 'watches': []}]):
+        rg = R.Rig(plugins=[R.role_plugin('lg', {'log'})])
+        try:
+            rg.install([dict(t, path=base, line=marks['fresh']) for t in tps])
+            box = {}
+            import threading
+            # in a fresh thread: the frames below the host function are the interpreter's thread bootstrap, not the
+            # harness (whose frames hold references to frame-locals mappings, the listed known finding)
+            th = threading.Thread(target=lambda: box.update(res=rg.run(mod.fresh, 7, 9, only_file=path)))
+            th.start()
+            th.join(60)
+            res = box.get('res')
+            bad = None
+            nsnap = sum(1 for t in tps if t['args'].get('snapshot') != 'no_collect')
+            if res != ('ok', 7) or rg.escaped or len(rg.snapshots()) != nsnap:
+                bad = 'host changed / %d snapshots for %d collecting tracepoints' % (len(rg.snapshots()), nsnap)
+            for s in rg.snapshots():
+                refs = [('frame %d' % fi, v.vid) for fi, f in enumerate(s.frames) for v in f.variables]
+                refs += [('child of %s' % k, ch.vid) for k, v in s.var_lookup.items() for ch in v.children]
+                refs += [('watch %s' % w.expression, w.result.vid) for w in s.watches if w.result is not None]
+                for where, vid in refs:
+                    if vid not in s.var_lookup:
+                        bad = 'snapshot of %s: %s refers to id %r which is not in its table' % (s.tracepoint.id, where, vid)
+                        break
+                names = sorted(v.name for v in s.frames[0].variables)
+                if not bad and names != ['a', 'alias', 'b', 'shared']:
+                    bad = 'snapshot of %s: top frame variables %s' % (s.tracepoint.id, names)
+                if bad:
+                    break
+            c.traces_validated += 1
+            c.note_case(key=('two-actions', str([t['id'] for t in tps])), nontrivial=True)
+            if bad:
+                p_ = c.save_replay({'direction': 'C2S', 'kind': 'two-actions', 'tps': tps, 'what': bad})
+                c.violation('tracepoints %s on one line: %s' % ([t['id'] for t in tps], bad), p_)
         finally:
             rg.close()
     # the frame's own locals() mapping as a watch value
